@@ -10,7 +10,11 @@ Model: `AiocoapModel/Observe/Fresh.lean` (`fresher` = `is_recent` of `Request._r
 step per event on the request's `Pipe`; deliveries = response future, observation callbacks,
 errbacks, `_stop_interest`).  All theorems quantify over every history of pipe events — any
 arrival order, duplication, Observe values (any `Nat`: wrap-around at 2^24, differences around
-2^23, oversized values), arrival times, and position of terminating events.
+2^23, oversized values), arrival times, response codes (a notification is a 2.xx response that
+carries an Observe option, `Msg.notif`; every other response terminates, whatever its options),
+and position of terminating events — and of application calls: `observation.cancel()` between
+events, from inside the callback that hands over a message (`Msg.cancels`) or once more after the
+end, `response.cancel()` before or after the first response.
 -/
 namespace Aiocoap.Observe
 
@@ -38,24 +42,26 @@ theorem chain_observing (cfg : Cfg) (es : List TEvent) (v1 t1 : Nat) :
     rw [trace_cons, accepted_append]
     cases ev with
     | message m last =>
-      cases hobs : m.obs with
+      cases hobs : m.notif with
       | none =>
-        have hq : Quiet (step cfg (.observing v1 t1) ⟨t, .message m last⟩).1 := by
-          simp [step, stepObserving, hobs, Quiet]
-        rw [quiet_accepted hq]
-        cases last <;> simp [step, stepObserving, hobs, accepted_cons_callback, ChainFresh]
+        rw [step_final cfg v1 t1 t m last hobs, quiet_accepted (Or.inr (Or.inl rfl))]
+        cases last <;> cases m.cancels <;> simp [accepted_cons_callback, hobs, ChainFresh]
       | some v2 =>
         rw [step_notification cfg v1 t1 t m v2 last hobs]
         by_cases hf : fresher cfg.reset v1 t1 v2 t = true
         · cases last
-          · have := ih v2 t
-            simp only [hf, Bool.false_eq_true, ↓reduceIte, List.append_nil, List.map_cons,
-              List.map_nil, accepted_cons_callback, hobs, Option.map_some, Option.toList_some,
-              accepted_nil, List.cons_append, List.nil_append, ChainFresh]
-            exact ⟨trivial, this⟩
+          · cases hc : m.cancels
+            · have := ih v2 t
+              simp only [hf, Bool.false_eq_true, ↓reduceIte, List.append_nil, List.map_cons,
+                List.map_nil, accepted_cons_callback, hobs, Option.map_some, Option.toList_some,
+                accepted_nil, List.cons_append, List.nil_append, ChainFresh]
+              exact ⟨trivial, this⟩
+            · simp only [hf, ↓reduceIte, Bool.false_eq_true]
+              rw [quiet_accepted (Or.inl rfl)]
+              simp [accepted_cons_callback, hobs, ChainFresh, hf]
           · simp only [hf, ↓reduceIte]
             rw [quiet_accepted (Or.inr (Or.inl rfl))]
-            simp [accepted_cons_callback, hobs, ChainFresh, hf]
+            cases m.cancels <;> simp [accepted_cons_callback, hobs, ChainFresh, hf]
         · have hf' : fresher cfg.reset v1 t1 v2 t = false := by
             cases h : fresher cfg.reset v1 t1 v2 t
             · rfl
@@ -102,7 +108,7 @@ theorem C07_only_fresher (cfg : Cfg) (es : List TEvent) :
     rw [trace_cons, accepted_append]
     cases ev with
     | message m last =>
-      by_cases hgo : cfg.observe = true ∧ last = false ∧ ∃ v, m.obs = some v
+      by_cases hgo : cfg.observe = true ∧ last = false ∧ ∃ v, m.notif = some v
       · obtain ⟨ho, hl, v, hv⟩ := hgo
         have := chain_observing cfg es v t
         simpa [step, stepFirst, ho, hl, hv, accepted_cons_response] using this
@@ -110,7 +116,7 @@ theorem C07_only_fresher (cfg : Cfg) (es : List TEvent) :
           cases ho : cfg.observe
           · simp [step, stepFirst, ho, Quiet]
           · cases hl : last
-            · cases hv : m.obs with
+            · cases hv : m.notif with
               | none => simp [step, stepFirst, ho, hv, Quiet]
               | some v => exact absurd ⟨ho, hl, v, hv⟩ hgo
             · simp [step, stepFirst, ho, Quiet]
@@ -118,9 +124,9 @@ theorem C07_only_fresher (cfg : Cfg) (es : List TEvent) :
         apply chainFresh_short
         simp only [step, stepFirst]
         split
-        · cases last <;> cases m.obs <;> simp [accepted_cons_response]
+        · cases last <;> cases m.notif <;> simp [accepted_cons_response]
         · split
-          · cases m.obs <;> simp [accepted_cons_response]
+          · cases m.notif <;> simp [accepted_cons_response]
           · split <;> simp [accepted_cons_response, *]
     | exception k =>
       have hq : Quiet (step cfg .awaitingFirst ⟨t, .exception k⟩).1 := by
@@ -142,23 +148,26 @@ theorem C07_only_fresher (cfg : Cfg) (es : List TEvent) :
       have hq : Quiet (step cfg .awaitingFirst ⟨t, .respCancel⟩).1 := by
         simp [step, stepFirst, Quiet]
       rw [quiet_accepted hq]
-      simp [step, stepFirst, ChainFresh]
+      cases ho : cfg.observe <;> simp [step, stepFirst, ho, ChainFresh]
 
 -- C07 clause 2: a fresher notification is handed over at once ------------------------------------
 
 /-- **C07 (handed over iff fresher, at once).** While an observation is established with `(v1, t1)`
 the last notification handed over, a notification `(v2, t)` is passed to the callbacks — in the very
 step in which it arrives, nothing is held back for later — if and only if it is fresher; and then
-it becomes the reference for what follows. -/
+it becomes the reference for what follows (unless the application cancels the observation from
+inside that very callback: then the observation is over for the application, `appCancelled`).
+A notification is a successful (2.xx) response carrying an Observe option (`Msg.notif`). -/
 theorem C07_handed_over_iff_fresher (cfg : Cfg) (v1 t1 t : Nat) (m : Msg) (v2 : Nat) (last : Bool)
-    (h : m.obs = some v2) :
+    (h : m.notif = some v2) :
     (Delivery.callback m ∈ (step cfg (.observing v1 t1) ⟨t, .message m last⟩).2 ↔
       fresher cfg.reset v1 t1 v2 t = true) ∧
     (last = false → (step cfg (.observing v1 t1) ⟨t, .message m last⟩).1 =
-      if fresher cfg.reset v1 t1 v2 t then .observing v2 t else .observing v1 t1) := by
+      if fresher cfg.reset v1 t1 v2 t then (if m.cancels then .appCancelled else .observing v2 t)
+      else .observing v1 t1) := by
   rw [step_notification cfg v1 t1 t m v2 last h]
   constructor
-  · cases hf : fresher cfg.reset v1 t1 v2 t <;> cases last <;> simp
+  · cases hf : fresher cfg.reset v1 t1 v2 t <;> cases last <;> cases m.cancels <;> simp
   · intro hl; simp [hl]
 
 theorem quiet_not_observing {cfg : Cfg} {s : ObsState} (h : Quiet s) (es : List TEvent) (v t : Nat) :
@@ -181,16 +190,19 @@ theorem last_observing (cfg : Cfg) (es : List TEvent) (v0 t0 v1 t1 : Nat)
     rw [trace_cons, accepted_append]
     cases ev with
     | message m last =>
-      cases hobs : m.obs with
+      cases hobs : m.notif with
       | none =>
         exact absurd h (quiet_not_observing (by simp [step, stepObserving, hobs, Quiet]) es v1 t1)
       | some v2 =>
         rw [step_notification cfg v0 t0 t m v2 last hobs] at h ⊢
         cases last
         · by_cases hf : fresher cfg.reset v0 t0 v2 t = true
-          · simp only [hf, Bool.false_eq_true, ↓reduceIte] at h
-            have := ih v2 t h
-            simpa [hf, accepted_cons_callback, hobs] using this
+          · cases hc : m.cancels
+            · simp only [hf, hc, Bool.false_eq_true, ↓reduceIte] at h
+              have := ih v2 t h
+              simpa [hf, hc, accepted_cons_callback, hobs] using this
+            · simp only [hf, hc, Bool.false_eq_true, ↓reduceIte] at h
+              exact absurd h (quiet_not_observing (by simp [Quiet]) es v1 t1)
           · have hf' : fresher cfg.reset v0 t0 v2 t = false := by
               cases h' : fresher cfg.reset v0 t0 v2 t
               · rfl
@@ -225,7 +237,7 @@ theorem C07_state_is_last_handed_over (cfg : Cfg) (es : List TEvent) (v1 t1 : Na
       cases ho : cfg.observe
       · exact absurd h (quiet_not_observing (by simp [step, stepFirst, ho, Quiet]) es v1 t1)
       · cases hl : last
-        · cases hv : m.obs with
+        · cases hv : m.notif with
           | none =>
             exact absurd h (quiet_not_observing (by simp [step, stepFirst, ho, hl, hv, Quiet]) es v1 t1)
           | some v =>
@@ -265,25 +277,27 @@ theorem step_handedOver (cfg : Cfg) (s : ObsState) (e : TEvent) :
         · split <;> simp
     | exception k => left; cases ho : cfg.observe <;> simp [step, stepFirst, ho]
     | obsCancel => left; cases ho : cfg.observe <;> simp [step, stepFirst, ho]
-    | respCancel => left; simp [step, stepFirst]
+    | respCancel => left; cases ho : cfg.observe <;> simp [step, stepFirst, ho]
   | cancelledFirst =>
     cases ev with
     | message m last =>
       right; refine ⟨m, rfl, ?_⟩
-      cases last <;> cases hv : m.obs <;> simp [step, stepCancelledFirst, hv]
+      cases last <;> cases hv : m.notif <;> simp [step, stepCancelledFirst, hv]
     | exception k => left; simp [step, stepCancelledFirst]
     | obsCancel => left; simp [step, stepCancelledFirst]
     | respCancel => left; simp [step, stepCancelledFirst]
   | observing v1 t1 =>
     cases ev with
     | message m last =>
-      cases hobs : m.obs with
-      | none => right; exact ⟨m, rfl, by cases last <;> simp [step, stepObserving, hobs]⟩
+      cases hobs : m.notif with
+      | none =>
+        right
+        exact ⟨m, rfl, by rw [step_final cfg v1 t1 t m last hobs]; cases last <;> cases m.cancels <;> simp⟩
       | some v2 =>
         rw [step_notification cfg v1 t1 t m v2 last hobs]
         cases hf : fresher cfg.reset v1 t1 v2 t
         · left; cases last <;> simp
-        · right; exact ⟨m, rfl, by cases last <;> simp⟩
+        · right; exact ⟨m, rfl, by cases last <;> cases m.cancels <;> simp⟩
     | exception k => left; simp [step, stepObserving]
     | obsCancel => left; simp [step, stepObserving]
     | respCancel => left; simp [step, stepObserving]
@@ -315,17 +329,17 @@ theorem C07_subsequence (cfg : Cfg) (s : ObsState) (es : List TEvent) :
 
 theorem freshest_observing (cfg : Cfg) (b T : Nat) (es : List TEvent) (v0 t0 : Nat)
     (hv0 : v0 < 2 ^ 24) (ho0 : soff b v0 < 2 ^ 23) (ht0 : T ≤ t0)
-    (hall : ∀ e ∈ es, ∃ m v, e.ev = .message m false ∧ m.obs = some v ∧ v < 2 ^ 24 ∧
+    (hall : ∀ e ∈ es, ∃ m v, e.ev = .message m false ∧ m.notif = some v ∧ m.cancels = false ∧ v < 2 ^ 24 ∧
       soff b v < 2 ^ 23 ∧ T ≤ e.time ∧ e.time ≤ T + cfg.reset) :
     ∃ v1 t1, finalState cfg (.observing v0 t0) es = .observing v1 t1 ∧
       soff b v0 ≤ soff b v1 ∧
-      (v1 = v0 ∨ ∃ m ∈ arrived es, m.obs = some v1) ∧
-      ∀ m ∈ arrived es, ∀ v, m.obs = some v → soff b v ≤ soff b v1 := by
+      (v1 = v0 ∨ ∃ m ∈ arrived es, m.notif = some v1) ∧
+      ∀ m ∈ arrived es, ∀ v, m.notif = some v → soff b v ≤ soff b v1 := by
   induction es generalizing v0 t0 with
   | nil => exact ⟨v0, t0, rfl, Nat.le_refl _, Or.inl rfl, by simp [arrived]⟩
   | cons e es ih =>
-    obtain ⟨m, v, hev, hobs, hv, ho, htT, ht⟩ := hall e List.mem_cons_self
-    have hrest : ∀ e' ∈ es, ∃ m v, e'.ev = .message m false ∧ m.obs = some v ∧ v < 2 ^ 24 ∧
+    obtain ⟨m, v, hev, hobs, hcn, hv, ho, htT, ht⟩ := hall e List.mem_cons_self
+    have hrest : ∀ e' ∈ es, ∃ m v, e'.ev = .message m false ∧ m.notif = some v ∧ m.cancels = false ∧ v < 2 ^ 24 ∧
         soff b v < 2 ^ 23 ∧ T ≤ e'.time ∧ e'.time ≤ T + cfg.reset :=
       fun e' he' => hall e' (List.mem_cons_of_mem _ he')
     obtain ⟨t, ev⟩ := e
@@ -341,7 +355,7 @@ theorem freshest_observing (cfg : Cfg) (b T : Nat) (es : List TEvent) (v0 t0 : N
     by_cases hf : fresher cfg.reset v0 t0 v t = true
     · have hlt := hfr.mp hf
       obtain ⟨v1, t1, hfin, hle, hmem, hmax⟩ := ih v t hv ho (by omega) hrest
-      refine ⟨v1, t1, by simpa [hf] using hfin, by omega, ?_, ?_⟩
+      refine ⟨v1, t1, by simpa [hf, hcn] using hfin, by omega, ?_, ?_⟩
       · right
         rcases hmem with h | ⟨m', hm', h⟩
         · exact ⟨m, List.mem_cons_self, by rw [h]; exact hobs⟩
@@ -378,14 +392,14 @@ handed to the application is the one furthest ahead on the circle among all that
 freshest one was delivered, whatever the arrival order. -/
 theorem C07_freshest_delivered (cfg : Cfg) (hobs : cfg.observe = true) (b T : Nat)
     (e0 : TEvent) (es : List TEvent)
-    (hall : ∀ e ∈ e0 :: es, ∃ m v, e.ev = .message m false ∧ m.obs = some v ∧ v < 2 ^ 24 ∧
+    (hall : ∀ e ∈ e0 :: es, ∃ m v, e.ev = .message m false ∧ m.notif = some v ∧ m.cancels = false ∧ v < 2 ^ 24 ∧
       soff b v < 2 ^ 23 ∧ T ≤ e.time ∧ e.time ≤ T + cfg.reset) :
     ∃ v1 t1, finalState cfg .awaitingFirst (e0 :: es) = .observing v1 t1 ∧
       (accepted (trace cfg .awaitingFirst (e0 :: es))).getLast? = some (v1, t1) ∧
-      (∃ m ∈ arrived (e0 :: es), m.obs = some v1) ∧
-      ∀ m ∈ arrived (e0 :: es), ∀ v, m.obs = some v → soff b v ≤ soff b v1 := by
-  obtain ⟨m0, v0, hev, hobs0, hv0, ho0, hT0, _⟩ := hall e0 List.mem_cons_self
-  have hrest : ∀ e ∈ es, ∃ m v, e.ev = .message m false ∧ m.obs = some v ∧ v < 2 ^ 24 ∧
+      (∃ m ∈ arrived (e0 :: es), m.notif = some v1) ∧
+      ∀ m ∈ arrived (e0 :: es), ∀ v, m.notif = some v → soff b v ≤ soff b v1 := by
+  obtain ⟨m0, v0, hev, hobs0, _, hv0, ho0, hT0, _⟩ := hall e0 List.mem_cons_self
+  have hrest : ∀ e ∈ es, ∃ m v, e.ev = .message m false ∧ m.notif = some v ∧ m.cancels = false ∧ v < 2 ^ 24 ∧
       soff b v < 2 ^ 23 ∧ T ≤ e.time ∧ e.time ≤ T + cfg.reset :=
     fun e he => hall e (List.mem_cons_of_mem _ he)
   obtain ⟨t, ev⟩ := e0
@@ -415,29 +429,29 @@ theorem C07_freshest_delivered (cfg : Cfg) (hobs : cfg.observe = true) (b T : Na
 notification handed over carries the numerically largest value that arrived -/
 theorem C07_freshest_delivered_plain (cfg : Cfg) (hobs : cfg.observe = true) (T : Nat)
     (e0 : TEvent) (es : List TEvent)
-    (hall : ∀ e ∈ e0 :: es, ∃ m v, e.ev = .message m false ∧ m.obs = some v ∧ v < 2 ^ 23 ∧
+    (hall : ∀ e ∈ e0 :: es, ∃ m v, e.ev = .message m false ∧ m.notif = some v ∧ m.cancels = false ∧ v < 2 ^ 23 ∧
       T ≤ e.time ∧ e.time ≤ T + cfg.reset) :
     ∃ v1 t1, (accepted (trace cfg .awaitingFirst (e0 :: es))).getLast? = some (v1, t1) ∧
-      (∃ m ∈ arrived (e0 :: es), m.obs = some v1) ∧
-      ∀ m ∈ arrived (e0 :: es), ∀ v, m.obs = some v → v ≤ v1 := by
-  have hall' : ∀ e ∈ e0 :: es, ∃ m v, e.ev = .message m false ∧ m.obs = some v ∧ v < 2 ^ 24 ∧
+      (∃ m ∈ arrived (e0 :: es), m.notif = some v1) ∧
+      ∀ m ∈ arrived (e0 :: es), ∀ v, m.notif = some v → v ≤ v1 := by
+  have hall' : ∀ e ∈ e0 :: es, ∃ m v, e.ev = .message m false ∧ m.notif = some v ∧ m.cancels = false ∧ v < 2 ^ 24 ∧
       soff 0 v < 2 ^ 23 ∧ T ≤ e.time ∧ e.time ≤ T + cfg.reset := by
     intro e he
-    obtain ⟨m, v, h1, h2, h3, h4, h5⟩ := hall e he
-    exact ⟨m, v, h1, h2, by omega, by rw [soff_zero v (by omega)]; exact h3, h4, h5⟩
+    obtain ⟨m, v, h1, h2, hc, h3, h4, h5⟩ := hall e he
+    exact ⟨m, v, h1, h2, hc, by omega, by rw [soff_zero v (by omega)]; exact h3, h4, h5⟩
   obtain ⟨v1, t1, _, hlast, ⟨m1, hm1, hv1⟩, hmax⟩ := C07_freshest_delivered cfg hobs 0 T e0 es hall'
   refine ⟨v1, t1, hlast, ⟨m1, hm1, hv1⟩, ?_⟩
   intro m hm v hv
   have h1 : v1 < 2 ^ 23 := by
     obtain ⟨e, he, hme⟩ : ∃ e ∈ e0 :: es, e.ev.msg? = some m1 := by
       simp only [arrived, List.mem_filterMap] at hm1; exact hm1
-    obtain ⟨m', v', h1, h2, h3, _⟩ := hall e he
+    obtain ⟨m', v', h1, h2, _, h3, _⟩ := hall e he
     rw [h1] at hme; simp only [Event.msg?, Option.some.injEq] at hme; subst hme
     rw [hv1] at h2; cases h2; exact h3
   have h2 : v < 2 ^ 23 := by
     obtain ⟨e, he, hme⟩ : ∃ e ∈ e0 :: es, e.ev.msg? = some m := by
       simp only [arrived, List.mem_filterMap] at hm; exact hm
-    obtain ⟨m', v', h1, h2, h3, _⟩ := hall e he
+    obtain ⟨m', v', h1, h2, _, h3, _⟩ := hall e he
     rw [h1] at hme; simp only [Event.msg?, Option.some.injEq] at hme; subst hme
     rw [hv] at h2; cases h2; exact h3
   have := hmax m hm v hv
@@ -445,17 +459,24 @@ theorem C07_freshest_delivered_plain (cfg : Cfg) (hobs : cfg.observe = true) (T 
 
 -- C07 clause 5: the observation ends exactly once, and how ---------------------------------------
 
-/-- a pipe event after which no notification can follow: marked last, without Observe option, or
-an exception -/
+/-- a pipe event after which no notification can follow: marked last, not a notification — without
+Observe option, or with a code that is not 2.xx, whatever its options (`Msg.notif`) —, or an
+exception -/
 def Event.terminating : Event → Bool
-  | .message m last => last || m.obs.isNone
+  | .message m last => last || m.notif.isNone
   | .exception _ => true
+  | _ => false
+
+/-- the application cancels the observation from inside the callback that is handed this message -/
+def Event.cancels : Event → Bool
+  | .message m _ => m.cancels
   | _ => false
 
 /-- how an observation has to end, as the property states it: with the network error when already
 the initial request fails in the transport; as `NotObservable` when the first response carries no
-Observe option (or is marked last); otherwise, at the first terminating event, the transport's
-exception or `ObservationCancelled`; otherwise not at all -/
+Observe option — "as every non-2.xx one": or is not a 2.xx response — (or is marked last);
+otherwise, at the first terminating event, the transport's exception or `ObservationCancelled`;
+otherwise not at all -/
 def expectedEnd : List Event → List ErrKind
   | [] => []
   | .exception k :: _ => [.transport k]
@@ -488,28 +509,35 @@ theorem step_errbacks (cfg : Cfg) (s : ObsState) (e : TEvent) :
       · left; simp [step, stepFirst, ho]
       · right; exact ⟨.transport k, by simp [step, stepFirst, ho], by simp [step, stepFirst]⟩
     | obsCancel => left; cases ho : cfg.observe <;> simp [step, stepFirst, ho]
-    | respCancel => left; simp [step, stepFirst]
+    | respCancel =>
+      cases ho : cfg.observe
+      · left; simp [step, stepFirst, ho]
+      · right; exact ⟨.observationCancelled, by simp [step, stepFirst, ho], by simp [step, stepFirst]⟩
   | cancelledFirst =>
     left
     cases ev with
-    | message m last => cases last <;> cases hv : m.obs <;> simp [step, stepCancelledFirst, hv]
+    | message m last => cases last <;> cases hv : m.notif <;> simp [step, stepCancelledFirst, hv]
     | exception k => simp [step, stepCancelledFirst]
     | obsCancel => simp [step, stepCancelledFirst]
     | respCancel => simp [step, stepCancelledFirst]
   | observing v1 t1 =>
     cases ev with
     | message m last =>
-      cases hobs : m.obs with
+      cases hobs : m.notif with
       | none =>
-        right
-        exact ⟨.observationCancelled, by cases last <;> simp [step, stepObserving, hobs],
-          by simp [step, stepObserving, hobs]⟩
+        rw [step_final cfg v1 t1 t m last hobs]
+        cases hc : m.cancels
+        · right; exact ⟨.observationCancelled, by cases last <;> simp, rfl⟩
+        · left; cases last <;> simp
       | some v2 =>
         rw [step_notification cfg v1 t1 t m v2 last hobs]
         cases last
         · left; cases fresher cfg.reset v1 t1 v2 t <;> simp
-        · right
-          exact ⟨.observationCancelled, by cases fresher cfg.reset v1 t1 v2 t <;> simp, by simp⟩
+        · cases hf : fresher cfg.reset v1 t1 v2 t <;> cases hc : m.cancels
+          · right; exact ⟨.observationCancelled, by simp, by simp⟩
+          · right; exact ⟨.observationCancelled, by simp, by simp⟩
+          · right; exact ⟨.observationCancelled, by simp, by simp⟩
+          · left; simp
     | exception k => right; exact ⟨.transport k, by simp [step, stepObserving], by simp [step, stepObserving]⟩
     | obsCancel => left; simp [step, stepObserving]
     | respCancel => left; simp [step, stepObserving]
@@ -534,7 +562,7 @@ theorem C07_at_most_one_end (cfg : Cfg) (s : ObsState) (es : List TEvent) :
     · rw [h, over_deliveries (Or.inl hend)]; simp
 
 theorem ends_observing (cfg : Cfg) (es : List TEvent) (v1 t1 : Nat)
-    (hp : ∀ e ∈ es, e.ev.isPipe = true) :
+    (hp : ∀ e ∈ es, e.ev.isPipe = true) (hnc : ∀ e ∈ es, e.ev.cancels = false) :
     errbacks (deliveries cfg (.observing v1 t1) es) =
       match (es.map (·.ev)).find? Event.terminating with
       | none => []
@@ -544,29 +572,32 @@ theorem ends_observing (cfg : Cfg) (es : List TEvent) (v1 t1 : Nat)
   | nil => simp [deliveries_nil]
   | cons e es ih =>
     have hrest : ∀ e' ∈ es, e'.ev.isPipe = true := fun e' he' => hp e' (List.mem_cons_of_mem _ he')
+    have hnrest : ∀ e' ∈ es, e'.ev.cancels = false := fun e' he' => hnc e' (List.mem_cons_of_mem _ he')
     have hpe := hp e List.mem_cons_self
+    have hce := hnc e List.mem_cons_self
     obtain ⟨t, ev⟩ := e
     rw [deliveries_cons, errbacks_append, List.map_cons, List.find?_cons]
     cases ev with
     | message m last =>
-      cases hobs : m.obs with
+      have hc : m.cancels = false := hce
+      cases hobs : m.notif with
       | none =>
         have : Event.terminating (.message m last) = true := by simp [Event.terminating, hobs]
         simp only [this]
         rw [over_deliveries (by simp [step, stepObserving, hobs, Over])]
-        cases last <;> simp [step, stepObserving, hobs]
+        cases last <;> simp [step, stepObserving, hobs, hc]
       | some v2 =>
         rw [step_notification cfg v1 t1 t m v2 last hobs]
         cases last
         · have : Event.terminating (.message m false) = false := by simp [Event.terminating, hobs]
           simp only [this]
           cases hf : fresher cfg.reset v1 t1 v2 t
-          · simpa using ih v1 t1 hrest
-          · simpa using ih v2 t hrest
+          · simpa using ih v1 t1 hrest hnrest
+          · simpa [hc] using ih v2 t hrest hnrest
         · have : Event.terminating (.message m true) = true := by simp [Event.terminating]
           simp only [this]
           rw [over_deliveries (by simp [Over])]
-          cases fresher cfg.reset v1 t1 v2 t <;> simp
+          cases fresher cfg.reset v1 t1 v2 t <;> simp [hc]
     | exception k =>
       have : Event.terminating (.exception k) = true := rfl
       simp only [this]
@@ -576,19 +607,23 @@ theorem ends_observing (cfg : Cfg) (es : List TEvent) (v1 t1 : Nat)
     | respCancel => simp [Event.isPipe] at hpe
 
 /-- **C07 (the observation ends exactly once, and as the property says).** For an observing
-request and every history of pipe events: the sequence of termination signals is exactly
-`expectedEnd` — the transport's exception, once, if already the first event is an exception (the
-response future fails with it as well); `NotObservable`, once, iff the first event is a response
-without Observe option (or marked last); otherwise nothing until the first terminating event, and
-at that event exactly one signal: the transport's exception, or `ObservationCancelled` for a
-response without Observe option (or marked last); none if no terminating event arrives. -/
+request and every history of pipe events (during which the application does not cancel the
+observation itself — neither between events, `isPipe`, nor from inside a callback, `cancels`; for
+those see `C07_nothing_after_app_cancel`, `C07_cancel_in_callback`): the sequence of termination
+signals is exactly `expectedEnd` — the transport's exception, once, if already the first event is
+an exception (the response future fails with it as well); `NotObservable`, once, iff the first
+event is a response that is not a notification: without Observe option, or with a non-2.xx code
+whatever its options (or marked last); otherwise nothing until the first terminating event, and at
+that event exactly one signal: the transport's exception, or `ObservationCancelled` for a response
+that is not a notification (or marked last); none if no terminating event arrives. -/
 theorem C07_ends_exactly_once (cfg : Cfg) (hobs : cfg.observe = true) (es : List TEvent)
-    (hp : ∀ e ∈ es, e.ev.isPipe = true) :
+    (hp : ∀ e ∈ es, e.ev.isPipe = true) (hnc : ∀ e ∈ es.drop 1, e.ev.cancels = false) :
     errbacks (deliveries cfg .awaitingFirst es) = expectedEnd (es.map (·.ev)) := by
   cases es with
   | nil => simp [deliveries_nil, expectedEnd]
   | cons e es =>
     have hrest : ∀ e' ∈ es, e'.ev.isPipe = true := fun e' he' => hp e' (List.mem_cons_of_mem _ he')
+    have hnrest : ∀ e' ∈ es, e'.ev.cancels = false := by simpa using hnc
     have hpe := hp e List.mem_cons_self
     obtain ⟨t, ev⟩ := e
     rw [deliveries_cons, errbacks_append, List.map_cons]
@@ -596,7 +631,7 @@ theorem C07_ends_exactly_once (cfg : Cfg) (hobs : cfg.observe = true) (es : List
     | message m last =>
       simp only [expectedEnd]
       cases hl : last
-      · cases hv : m.obs with
+      · cases hv : m.notif with
         | none =>
           have : Event.terminating (.message m false) = true := by simp [Event.terminating, hv]
           simp only [this, ↓reduceIte]
@@ -605,7 +640,7 @@ theorem C07_ends_exactly_once (cfg : Cfg) (hobs : cfg.observe = true) (es : List
         | some v =>
           have : Event.terminating (.message m false) = false := by simp [Event.terminating, hv]
           simp only [this, Bool.false_eq_true, ↓reduceIte]
-          have := ends_observing cfg es v t hrest
+          have := ends_observing cfg es v t hrest hnrest
           simpa [step, stepFirst, hobs, hv] using this
       · have : Event.terminating (.message m true) = true := by simp [Event.terminating]
         simp only [this, ↓reduceIte]
@@ -619,20 +654,46 @@ theorem C07_ends_exactly_once (cfg : Cfg) (hobs : cfg.observe = true) (es : List
     | respCancel => simp [Event.isPipe] at hpe
 
 /-- **C07 (final response, then the cancellation signal).** When, during an established
-observation, a response without Observe option arrives (every non-2.xx response is one), exactly
-this happens, in this order: the response is passed to the callbacks, then the errbacks get
-`ObservationCancelled` (then the runner stops its interest unless the pipe marked the response
-last) — and nothing else for the rest of the history. -/
+observation, a response arrives that is not a notification — without Observe option, or with a
+code that is not 2.xx whatever options it carries (`Msg.notif`; `C07_non_2xx_is_final` spells the
+second case out) — exactly this happens, in this order and whatever the response's Observe value
+and arrival time (no freshness test): the response is passed to the callbacks, then the errbacks
+get `ObservationCancelled` (then the runner stops its interest unless the pipe marked the response
+last) — and nothing else for the rest of the history.  (`hc`: the application does not cancel the
+observation from inside that callback; if it does, `C07_cancel_in_callback`.) -/
 theorem C07_final_response_then_cancellation (cfg : Cfg) (pre post : List TEvent) (v1 t1 t : Nat)
     (m : Msg) (last : Bool)
-    (hst : finalState cfg .awaitingFirst pre = .observing v1 t1) (hm : m.obs = none) :
+    (hst : finalState cfg .awaitingFirst pre = .observing v1 t1) (hm : m.notif = none)
+    (hc : m.cancels = false) :
     deliveries cfg .awaitingFirst (pre ++ ⟨t, .message m last⟩ :: post) =
       deliveries cfg .awaitingFirst pre ++
         ([.callback m, .errback .observationCancelled] ++ if last then [] else [.stopInterest]) := by
   have hover : Over (step cfg (.observing v1 t1) ⟨t, .message m last⟩).1 := by
     simp [step, stepObserving, hm, Over]
   rw [deliveries_append, hst, deliveries_cons, over_deliveries hover]
-  simp [step, stepObserving, hm]
+  simp [step, stepObserving, hm, hc]
+
+/-- **C07 ("as every non-2.xx one is").** A response whose code is not 2.xx is never a
+notification, whatever Observe option a server puts on it: as the first response of an observing
+request it completes the response future and ends the observation with `NotObservable`; during an
+established observation it is handed to the callbacks — unconditionally, its Observe value is not
+compared with anything — and followed by `ObservationCancelled`; nothing else is delivered for the
+rest of the history in either case. -/
+theorem C07_non_2xx_is_final (cfg : Cfg) (hobs : cfg.observe = true) (t : Nat) (m : Msg)
+    (last : Bool) (post : List TEvent) (hcode : successful m.code = false) :
+    Event.terminating (.message m last) = true ∧
+    deliveries cfg .awaitingFirst (⟨t, .message m last⟩ :: post) =
+      [.response m, .errback .notObservable] ++ (if last then [] else [.stopInterest]) ∧
+    ∀ v1 t1, m.cancels = false →
+      deliveries cfg (.observing v1 t1) (⟨t, .message m last⟩ :: post) =
+        [.callback m, .errback .observationCancelled] ++ (if last then [] else [.stopInterest]) := by
+  have hn : m.notif = none := by simp [Msg.notif, hcode]
+  refine ⟨by simp [Event.terminating, hn], ?_, ?_⟩
+  · rw [deliveries_cons, over_deliveries (by cases last <;> simp [step, stepFirst, hobs, hn, Over])]
+    cases last <;> simp [step, stepFirst, hobs, hn]
+  · intro v1 t1 hc
+    rw [deliveries_cons, step_final cfg v1 t1 t m last hn, over_deliveries (Or.inl rfl)]
+    simp [hc]
 
 /-- **C07 (transport failure).** An exception on the pipe during an established observation is
 passed to the errbacks — that one signal and nothing else for the rest of the history. -/
@@ -646,20 +707,21 @@ theorem C07_network_error (cfg : Cfg) (pre post : List TEvent) (v1 t1 t k : Nat)
   simp [step, stepObserving]
 
 /-- **C07 (not observable).** The first response of an observing request: it always completes
-the response future; the errbacks get `NotObservable` iff it has no Observe option or is marked
-last, and then nothing else is ever delivered; otherwise the observation is established with its
-Observe value and arrival time. -/
+the response future; the errbacks get `NotObservable` iff it is not a notification — it has no
+Observe option, or its code is not 2.xx whatever its options — or is marked last, and then nothing
+else is ever delivered; otherwise the observation is established with its Observe value and
+arrival time. -/
 theorem C07_first_response (cfg : Cfg) (hobs : cfg.observe = true) (t : Nat) (m : Msg) (last : Bool)
     (post : List TEvent) :
-    (if last = true ∨ m.obs = none then
+    (if last = true ∨ m.notif = none then
       deliveries cfg .awaitingFirst (⟨t, .message m last⟩ :: post) =
         [.response m, .errback .notObservable] ++
           (if last then [] else [.stopInterest])
      else
-      ∃ v, m.obs = some v ∧ step cfg .awaitingFirst ⟨t, .message m last⟩ =
+      ∃ v, m.notif = some v ∧ step cfg .awaitingFirst ⟨t, .message m last⟩ =
         (.observing v t, [.response m])) := by
   cases hl : last
-  · cases hv : m.obs with
+  · cases hv : m.notif with
     | none =>
       simp only [Bool.false_eq_true, or_true, ↓reduceIte]
       rw [deliveries_cons, over_deliveries (by simp [step, stepFirst, hobs, hv, Over])]
@@ -728,22 +790,24 @@ theorem step_afterEnd (cfg : Cfg) (s : ObsState) (e : TEvent) :
         · split <;> simp [afterEnd, Delivery.err?]
     | exception k => cases ho : cfg.observe <;> simp [step, stepFirst, ho, afterEnd, Delivery.err?]
     | obsCancel => cases ho : cfg.observe <;> simp [step, stepFirst, ho, afterEnd]
-    | respCancel => simp [step, stepFirst, afterEnd, Delivery.err?]
+    | respCancel => cases ho : cfg.observe <;> simp [step, stepFirst, ho, afterEnd, Delivery.err?]
   | cancelledFirst =>
     cases ev with
     | message m last =>
-      cases last <;> cases hv : m.obs <;> simp [step, stepCancelledFirst, hv, afterEnd, Delivery.err?]
+      cases last <;> cases hv : m.notif <;> simp [step, stepCancelledFirst, hv, afterEnd, Delivery.err?]
     | exception k => simp [step, stepCancelledFirst, afterEnd, Delivery.err?]
     | obsCancel => simp [step, stepCancelledFirst, afterEnd]
     | respCancel => simp [step, stepCancelledFirst, afterEnd, Delivery.err?]
   | observing v1 t1 =>
     cases ev with
     | message m last =>
-      cases hobs : m.obs with
-      | none => cases last <;> simp [step, stepObserving, hobs, afterEnd, Delivery.err?]
+      cases hobs : m.notif with
+      | none =>
+        cases last <;> cases hc : m.cancels <;>
+          simp [step, stepObserving, hobs, hc, afterEnd, Delivery.err?]
       | some v2 =>
         rw [step_notification cfg v1 t1 t m v2 last hobs]
-        cases last <;> cases fresher cfg.reset v1 t1 v2 t <;>
+        cases last <;> cases fresher cfg.reset v1 t1 v2 t <;> cases m.cancels <;>
           simp [afterEnd, Delivery.err?]
     | exception k => simp [step, stepObserving, afterEnd, Delivery.err?]
     | obsCancel => simp [step, stepObserving, afterEnd]
@@ -797,39 +861,142 @@ event. -/
 theorem C07_app_cancel_before_first_response (cfg : Cfg) (hobs : cfg.observe = true) (t t' : Nat) :
     step cfg .awaitingFirst ⟨t, .obsCancel⟩ = (.cancelledFirst, []) ∧
     (∀ m last, step cfg .cancelledFirst ⟨t', .message m last⟩ =
-      (if last = true ∨ m.obs = none then .ended else .appCancelled,
-       .response m :: if last = false ∧ m.obs = none then [.stopInterest] else [])) ∧
+      (if last = true ∨ m.notif = none then .ended else .appCancelled,
+       .response m :: if last = false ∧ m.notif = none then [.stopInterest] else [])) ∧
     (∀ k, step cfg .cancelledFirst ⟨t', .exception k⟩ = (.ended, [.responseExc k])) ∧
     (∀ e, (step cfg .appCancelled e).2 = if e.ev.isPipe then [.stopInterest] else []) := by
   refine ⟨by simp [step, stepFirst, hobs], ?_, fun k => rfl, ?_⟩
   · intro m last
-    cases last <;> cases hv : m.obs <;> simp [step, stepCancelledFirst, hv]
+    cases last <;> cases hv : m.notif <;> simp [step, stepCancelledFirst, hv]
   · intro e
     obtain ⟨t, ev⟩ := e
     cases ev <;> simp [step, stepCancelled, Event.isPipe]
 
+/-- **C07 (cancelled from inside the callback).** When the application calls
+`request.observation.cancel()` from inside the callback that hands it a message (`m.cancels`) —
+a notification, the last notification, the final response —, then in that very turn of the runner
+nothing follows the callback but (possibly) the runner's withdrawal from the pipe: in particular
+`ClientObservation.error` is not called on the cancelled observation (it would raise into the
+pipe's feeder, i.e. the transport), and nothing that arrives later is signalled to the observation's
+listeners. -/
+theorem C07_cancel_in_callback (cfg : Cfg) (s : ObsState) (t : Nat) (m : Msg) (last : Bool)
+    (post : List TEvent) (hc : m.cancels = true)
+    (hcb : Delivery.callback m ∈ (step cfg s ⟨t, .message m last⟩).2) :
+    errbacks (step cfg s ⟨t, .message m last⟩).2 = [] ∧
+    (∀ d ∈ (step cfg s ⟨t, .message m last⟩).2, d = .callback m ∨ d = .stopInterest) ∧
+    Quiet (step cfg s ⟨t, .message m last⟩).1 ∧
+    ∀ d ∈ deliveries cfg (step cfg s ⟨t, .message m last⟩).1 post, d.isSignal = false := by
+  have key : errbacks (step cfg s ⟨t, .message m last⟩).2 = [] ∧
+      (∀ d ∈ (step cfg s ⟨t, .message m last⟩).2, d = .callback m ∨ d = .stopInterest) ∧
+      Quiet (step cfg s ⟨t, .message m last⟩).1 := by
+    cases s with
+    | awaitingFirst =>
+      exfalso; revert hcb
+      simp only [step, stepFirst]
+      split
+      · cases last <;> simp
+      · split
+        · simp
+        · split <;> simp
+    | cancelledFirst =>
+      exfalso; revert hcb
+      cases last <;> cases hv : m.notif <;> simp [step, stepCancelledFirst, hv]
+    | observing v1 t1 =>
+      cases hobs : m.notif with
+      | none =>
+        rw [step_final cfg v1 t1 t m last hobs]
+        cases last <;> simp [hc, Quiet]
+      | some v2 =>
+        rw [step_notification cfg v1 t1 t m v2 last hobs] at hcb ⊢
+        cases hf : fresher cfg.reset v1 t1 v2 t
+        · exfalso; revert hcb; cases last <;> simp [hf]
+        · cases last <;> simp [hc, Quiet]
+    | appCancelled => exfalso; revert hcb; simp [step, stepCancelled]
+    | ended => exfalso; revert hcb; simp [step]
+    | unmodelled => exfalso; revert hcb; simp [step]
+  exact ⟨key.1, key.2.1, key.2.2, (calm_run (Or.inr key.2.2) post).2⟩
+
+/-- **C07 (cancelling once more does nothing).** `request.observation.cancel()` on an observation
+that is cancelled already — by the application before the first response or during the
+observation, or because it has ended (`error()` cancels it; state `ended` of an observing request)
+— changes nothing and delivers nothing; in particular it raises nothing into whoever is just
+delivering the end to an errback that cancels "its" observation (the sweep of
+`TokenManager.shutdown`, the transport): the deliveries of a history are the same with and without
+such calls. -/
+theorem C07_cancel_again_is_noop (cfg : Cfg) (hobs : cfg.observe = true) (s : ObsState) (t : Nat)
+    (hs : s = .cancelledFirst ∨ s = .appCancelled ∨ s = .ended) (pre post : List TEvent)
+    (hpre : finalState cfg .awaitingFirst pre = s) :
+    step cfg s ⟨t, .obsCancel⟩ = (s, []) ∧
+    deliveries cfg .awaitingFirst (pre ++ ⟨t, .obsCancel⟩ :: post) =
+      deliveries cfg .awaitingFirst (pre ++ post) := by
+  have h1 : step cfg s ⟨t, .obsCancel⟩ = (s, []) := by
+    rcases hs with h | h | h <;> subst h <;> simp [step, stepCancelledFirst, stepCancelled, hobs]
+  refine ⟨h1, ?_⟩
+  rw [deliveries_append, deliveries_append, hpre, deliveries_cons, h1]
+  rfl
+
+-- C07 clause 6c: the application gives the request up before its first response --------------------
+
+/-- **C07 (response future cancelled before the first response).** When the application cancels
+`request.response` of an observing request before the first event (`asyncio.wait_for` does that on
+time-out), the runner is dropped, the interest in the exchange withdrawn, and the observation is
+ended, once, with `ObservationCancelled` — so that an `async for` over it stops and errbacks fire
+(`C07_iter_compose` with `errbacks = [observationCancelled]`) — and nothing else is ever delivered;
+an observation the application had cancelled before is told nothing; and once the first response
+is in, `response.cancel()` finds a completed future and changes nothing: the observation goes on. -/
+theorem C07_response_cancelled_ends_observation (cfg : Cfg) (hobs : cfg.observe = true) (t : Nat)
+    (post : List TEvent) :
+    deliveries cfg .awaitingFirst (⟨t, .respCancel⟩ :: post) =
+      [.stopInterest, .errback .observationCancelled] ∧
+    deliveries cfg .cancelledFirst (⟨t, .respCancel⟩ :: post) = [.stopInterest] ∧
+    ∀ v1 t1, step cfg (.observing v1 t1) ⟨t, .respCancel⟩ = (.observing v1 t1, []) := by
+  refine ⟨?_, ?_, fun _ _ => rfl⟩
+  · rw [deliveries_cons, over_deliveries (by simp [step, stepFirst, Over])]
+    simp [step, stepFirst, hobs]
+  · rw [deliveries_cons, over_deliveries (by simp [step, stepCancelledFirst, Over])]
+    simp [step, stepCancelledFirst]
+
 -- C07 clause 7: joint with the message layer — after the end the token is retired -----------------
 
 open Aiocoap.MsgLayer in
-/-- **C07 (the token manager marks a response without Observe as last).** Whatever
-`process_response` puts on a request's pipe for a datagram without Observe option is marked last
-— so on the real stack a first response without Observe always takes the `NotObservable` branch
-and a later one the `callback, ObservationCancelled` branch of the runner, and the runner never
-has to withdraw from the pipe itself; and for a request that observes, a datagram *with* Observe
-option is never marked last. -/
+/-- **C07 (the token manager marks every response that is not a notification as last).**
+Whatever `process_response` puts on a request's pipe for a datagram that is not a notification —
+without Observe option, or with a code that is not 2.xx whatever its options — is marked last: so
+on the real stack a first response of that kind always takes the `NotObservable` branch and a
+later one the `callback, ObservationCancelled` branch of the runner, the runner never has to
+withdraw from the pipe itself, and the token is retired in that very call
+(`C07_joint_end_retires_token`); and for a request that observes, a notification (2.xx with
+Observe option) is never marked last. -/
 theorem C07_joint_no_observe_is_last (s : MsgLayer.State) (remote : Remote) (w : Wire) (r : Nat)
     (w' : Wire) (f : Bool) (h : (r, w', f) ∈ respOf (processResponse s remote w).2.1) :
     pipeEventOf r (.response r w' f) = some (.message (msgOfWire w) f) ∧
-    (w.obs = none → f = true ∧ Event.terminating (.message (msgOfWire w) f) = true) ∧
-    ((∀ o ∈ s.outgoing, o.req = r → o.observing = true) → w.obs.isSome = true → f = false) := by
+    ((msgOfWire w).notif = none → f = true ∧ Event.terminating (.message (msgOfWire w) f) = true) ∧
+    ((w.obs = none ∨ isSuccessful w.code = false) → f = true) ∧
+    ((∀ o ∈ s.outgoing, o.req = r → o.observing = true) → (msgOfWire w).notif.isSome = true →
+      f = false) := by
   obtain ⟨hw, _, o, ho, hr, _, _, hf⟩ := C02_delivery_matches s remote w r w' f h
   subst hw
-  refine ⟨by simp [pipeEventOf], ?_, ?_⟩
+  have hsucc : successful w'.code = isSuccessful w'.code := by
+    simp [successful, isSuccessful]
+  have hraw : (w'.obs = none ∨ isSuccessful w'.code = false) → f = true := by
+    intro hn
+    rcases hn with hn | hn <;> rw [hf, hn] <;> simp
+  refine ⟨by simp [pipeEventOf], ?_, hraw, ?_⟩
   · intro hn
-    have : f = true := by rw [hf, hn]; simp
+    have : f = true := by
+      apply hraw
+      simp only [Msg.notif, msgOfWire, hsucc] at hn
+      cases hs : isSuccessful w'.code
+      · exact Or.inr rfl
+      · left; simpa [hs] using hn
     exact ⟨this, by simp [Event.terminating, this]⟩
   · intro hob hs
-    rw [hf, hob o ho hr, hs]; rfl
+    simp only [Msg.notif, msgOfWire, hsucc] at hs
+    cases hc : isSuccessful w'.code
+    · simp [hc] at hs
+    · rw [hf, hob o ho hr, hc]
+      simp only [hc, ↓reduceIte] at hs
+      simp [hs]
 
 /-- **C07 (once the runner has returned, the token is retired).** Start from any state of the
 message layer in which request `r` is not registered, submit it, and let anything happen — any
@@ -938,46 +1105,78 @@ theorem C07_fresher_is_rfc7641 (reset v1 t1 v2 t2 : Nat) :
 -- non-vacuity and sanity --------------------------------------------------------------------------
 
 def exCfg : Cfg := { reset := 128 * 2 ^ 20, observe := true }
-def exN (t v body : Nat) : TEvent := ⟨t, .message ⟨69, some v, body⟩ false⟩
+def exN (t v body : Nat) : TEvent := ⟨t, .message ⟨69, some v, body, false⟩ false⟩
 
 /-- reordering, a duplicate, the half-circle boundary, the 128 s rule at ±1 tick, a 4.04 that ends
 the observation, and a late notification -/
 def exHistory : List TEvent :=
   [exN 0 5 0, exN 1 7 1, exN 2 6 2, exN 3 7 3, exN 4 (7 + 2 ^ 23) 4, exN 5 (6 + 2 ^ 23) 5,
    exN (5 + 128 * 2 ^ 20) (2 ^ 23) 6, exN (6 + 128 * 2 ^ 20) (2 ^ 23) 7,
-   ⟨7 + 128 * 2 ^ 20, .message ⟨132, none, 8⟩ true⟩, exN (8 + 128 * 2 ^ 20) 9 9]
+   ⟨7 + 128 * 2 ^ 20, .message ⟨132, none, 8, false⟩ true⟩, exN (8 + 128 * 2 ^ 20) 9 9]
 
 example : deliveries exCfg .awaitingFirst exHistory =
-    [.response ⟨69, some 5, 0⟩, .callback ⟨69, some 7, 1⟩, .callback ⟨69, some (6 + 2 ^ 23), 5⟩,
-     .callback ⟨69, some (2 ^ 23), 7⟩, .callback ⟨132, none, 8⟩, .errback .observationCancelled] := by
+    [.response ⟨69, some 5, 0, false⟩, .callback ⟨69, some 7, 1, false⟩, .callback ⟨69, some (6 + 2 ^ 23), 5, false⟩,
+     .callback ⟨69, some (2 ^ 23), 7, false⟩, .callback ⟨132, none, 8, false⟩, .errback .observationCancelled] := by
   decide
 example : finalState exCfg .awaitingFirst exHistory = .ended := by decide
 example : expectedEnd (exHistory.map (·.ev)) = [.observationCancelled] := by decide
 example : ∀ e ∈ exHistory, e.ev.isPipe = true := by decide
 example : errbacks (deliveries exCfg .awaitingFirst (exHistory.take 8)) = [] := by decide
 /-- a first response without Observe that the pipe does not mark last (the fixed defect) -/
-example : deliveries exCfg .awaitingFirst [⟨0, .message ⟨69, none, 1⟩ false⟩, exN 1 5 2] =
-    [.response ⟨69, none, 1⟩, .errback .notObservable, .stopInterest] := by decide
+example : deliveries exCfg .awaitingFirst [⟨0, .message ⟨69, none, 1, false⟩ false⟩, exN 1 5 2] =
+    [.response ⟨69, none, 1, false⟩, .errback .notObservable, .stopInterest] := by decide
 
 /-- transport failure of the initial request (the second fixed defect): the observation ends with
 that error -/
 example : deliveries exCfg .awaitingFirst [⟨0, .exception 2⟩, exN 1 5 2] =
     [.responseExc 2, .errback (.transport 2)] := by decide
-example : expectedEnd [.exception 2, .message ⟨69, some 5, 2⟩ false] = [.transport 2] := by decide
+example : expectedEnd [.exception 2, .message ⟨69, some 5, 2, false⟩ false] = [.transport 2] := by decide
 /-- `observation.cancel()` before the first response (fixed in 5a6f232): the response future still
 completes, nobody is told anything, the runner withdraws at the next event -/
 example : deliveries exCfg .awaitingFirst
-    [⟨0, .obsCancel⟩, exN 1 5 2, exN 2 6 3, ⟨3, .message ⟨132, none, 4⟩ true⟩] =
-    [.response ⟨69, some 5, 2⟩, .stopInterest] := by decide
+    [⟨0, .obsCancel⟩, exN 1 5 2, exN 2 6 3, ⟨3, .message ⟨132, none, 4, false⟩ true⟩] =
+    [.response ⟨69, some 5, 2, false⟩, .stopInterest] := by decide
 example : deliveries exCfg .awaitingFirst [⟨0, .obsCancel⟩, ⟨1, .exception 3⟩] = [.responseExc 3] := by
   decide
-example : deliveries exCfg .awaitingFirst [⟨0, .obsCancel⟩, ⟨1, .message ⟨69, none, 4⟩ true⟩] =
-    [.response ⟨69, none, 4⟩] := by decide
+example : deliveries exCfg .awaitingFirst [⟨0, .obsCancel⟩, ⟨1, .message ⟨69, none, 4, false⟩ true⟩] =
+    [.response ⟨69, none, 4, false⟩] := by decide
+
+/-- a 4.04 that carries an Observe option (stale, even) ends the observation like any final
+response; as the first response it means "not observable" -/
+example : deliveries exCfg .awaitingFirst
+    [exN 0 5 0, exN 1 7 1, ⟨2, .message ⟨132, some 3, 2, false⟩ true⟩, exN 3 9 3] =
+    [.response ⟨69, some 5, 0, false⟩, .callback ⟨69, some 7, 1, false⟩,
+     .callback ⟨132, some 3, 2, false⟩, .errback .observationCancelled] := by decide
+example : deliveries exCfg .awaitingFirst [⟨0, .message ⟨132, some 5, 0, false⟩ false⟩, exN 1 7 1] =
+    [.response ⟨132, some 5, 0, false⟩, .errback .notObservable, .stopInterest] := by decide
+example : successful 132 = false ∧ successful 69 = true ∧ successful 95 = true ∧
+    successful 96 = false ∧ successful 63 = false := by decide
+/-- the application cancels from inside the callback: on a notification (the next event makes the
+runner withdraw), on the final response (no `error()` on the cancelled observation) -/
+example : deliveries exCfg .awaitingFirst
+    [exN 0 5 0, ⟨1, .message ⟨69, some 7, 1, true⟩ false⟩, exN 2 8 2, exN 3 9 3] =
+    [.response ⟨69, some 5, 0, false⟩, .callback ⟨69, some 7, 1, true⟩, .stopInterest] := by decide
+example : deliveries exCfg .awaitingFirst
+    [exN 0 5 0, ⟨1, .message ⟨132, none, 1, true⟩ true⟩, exN 2 8 2] =
+    [.response ⟨69, some 5, 0, false⟩, .callback ⟨132, none, 1, true⟩] := by decide
+example : Delivery.callback ⟨132, none, 1, true⟩ ∈
+    (step exCfg (.observing 5 0) ⟨1, .message ⟨132, none, 1, true⟩ true⟩).2 := by decide
+/-- `observation.cancel()` after the end, and twice: nothing happens, nothing leaves the model -/
+example : deliveries exCfg .awaitingFirst
+    [exN 0 5 0, ⟨1, .message ⟨132, none, 1, false⟩ true⟩, ⟨2, .obsCancel⟩, ⟨3, .obsCancel⟩, exN 4 8 2] =
+    [.response ⟨69, some 5, 0, false⟩, .callback ⟨132, none, 1, false⟩, .errback .observationCancelled] := by
+  decide
+example : finalState exCfg .awaitingFirst
+    [exN 0 5 0, ⟨1, .message ⟨132, none, 1, false⟩ true⟩, ⟨2, .obsCancel⟩, ⟨3, .obsCancel⟩] = .ended := by
+  decide
+/-- `response.cancel()` before the first response ends the observation -/
+example : deliveries exCfg .awaitingFirst [⟨0, .respCancel⟩, exN 1 5 0] =
+    [.stopInterest, .errback .observationCancelled] := by decide
 
 /-- hypotheses of `C07_freshest_delivered` are met by a history that wraps around 2^24 -/
 def exWrap : List TEvent := [exN 10 (2 ^ 24 - 2) 0, exN 11 1 1, exN 12 (2 ^ 24 - 1) 2, exN 13 0 3, exN 14 1 4]
 
-example : ∀ e ∈ exWrap, ∃ m v, e.ev = .message m false ∧ m.obs = some v ∧ v < 2 ^ 24 ∧
+example : ∀ e ∈ exWrap, ∃ m v, e.ev = .message m false ∧ m.notif = some v ∧ m.cancels = false ∧ v < 2 ^ 24 ∧
     soff (2 ^ 24 - 2) v < 2 ^ 23 ∧ 10 ≤ e.time ∧ e.time ≤ 10 + exCfg.reset := by
   intro e he
   simp only [exWrap, List.mem_cons, List.not_mem_nil, or_false] at he
@@ -1001,10 +1200,26 @@ def exJointStart : JState :=
    .awaitingFirst⟩
 
 example : (jointRun exCfg 0 exJointStart exJoint).2 =
-    [.response ⟨69, some 5, 1⟩, .callback ⟨69, some 6, 2⟩, .callback ⟨132, none, 3⟩,
+    [.response ⟨69, some 5, 1, false⟩, .callback ⟨69, some 6, 2, false⟩, .callback ⟨132, none, 3, false⟩,
      .errback .observationCancelled] := by decide
 example : (jointRun exCfg 0 exJointStart exJoint).1.st = .ended := by decide
 example : (jointRun exCfg 0 exJointStart exJoint).1.ms.outgoing = [] := by decide
+/-- the same exchange with a 4.04 that carries an (older) Observe option: the token manager marks
+it last, the runner hands it over as the final response, the token is retired and the next
+confirmable notification is reset -/
+def exJointErr : List JEv :=
+  [.net ⟨2, .recv 5 false { mtype := .ack, code := 69, mid := 100, token := [8], obs := some 5, body := 1 }⟩,
+   .net ⟨3, .recv 5 false { mtype := .con, code := 69, mid := 900, token := [8], obs := some 6, body := 2 }⟩,
+   .net ⟨4, .recv 5 false { mtype := .con, code := 132, mid := 901, token := [8], obs := some 3, body := 3 }⟩,
+   .net ⟨5, .recv 5 false { mtype := .con, code := 69, mid := 902, token := [8], obs := some 7, body := 4 }⟩]
+
+example : (jointRun exCfg 0 exJointStart exJointErr).2 =
+    [.response ⟨69, some 5, 1, false⟩, .callback ⟨69, some 6, 2, false⟩, .callback ⟨132, some 3, 3, false⟩,
+     .errback .observationCancelled] := by decide
+example : (jointRun exCfg 0 exJointStart (exJointErr.take 3)).1.ms.outgoing = [] := by decide
+example : (jointStep exCfg 0 (jointRun exCfg 0 exJointStart (exJointErr.take 3)).1
+    (exJointErr.getD 3 (.app 0 .obsCancel))).2.1 =
+    [.send 5 5 { mtype := .rst, code := 0, mid := 902, token := [], obs := none, body := 0 }] := by decide
 /-- the late CON notification (mid 902) is answered with a Reset -/
 example : (jointStep exCfg 0 (jointRun exCfg 0 exJointStart (exJoint.take 3)).1 (exJoint.getD 3 (.app 0 .obsCancel))).2.1 =
     [.send 5 5 { mtype := .rst, code := 0, mid := 902, token := [], obs := none, body := 0 }] := by decide
